@@ -160,3 +160,18 @@ func ghostTimerPrefix(kg uint16) []byte { return []byte{byte(kg >> 8), byte(kg),
 //@   property C02
 //@   nosafety
 //@   requires req != nil
+
+// ---- table ownership (C09). The shared table may be deleted only if this
+// partition's range covers the table's whole range, or every neighbour answered
+// "not needed" without error. Any error or any "needed" means: keep the file.
+//@ func OperatorPartition.ExclusivelyOwnsTable
+//@   property C09
+//@   nosafety
+//@   ensures result1 != nil ==> !result0
+//@   loop 1:
+//@     invariant !neighborNeedsTable
+
+//@ func neighborPartition.NeedsTable
+//@   property C09
+//@   nosafety
+//@   atcall NeedsTable: o.keyGroupRange.Overlaps(tableKeyGroupRange)
